@@ -906,11 +906,11 @@ func (e *lfEngine) roleName(cc *ssa.CallCommon, name string) string {
 			r = modPath + "/pkg/ipmi.checksum"
 		}
 	case "func(uint8)(time.Duration)":
-		if f.Pkg != nil && f.Pkg.Pkg.Path() == modPath+"/pkg/dcmi" {
+		if f.Pkg != nil && e.c.libFn(f) {
 			r = modPath + "/pkg/dcmi.rollingAvgPeriodDuration"
 		}
 	case "func(time.Duration)(uint8)":
-		if f.Pkg != nil && f.Pkg.Pkg.Path() == modPath+"/pkg/dcmi" {
+		if f.Pkg != nil && e.c.libFn(f) {
 			r = modPath + "/pkg/dcmi.rollingAvgPeriodByte"
 		}
 	}
